@@ -11,6 +11,124 @@ import OdfModel.Moin
 namespace OdfModel.Props.C18
 open OdfModel OdfModel.Xml OdfModel.Xhtml OdfModel.Generated.Xhtml
 
+
+/-! ## The vocabulary: element names and what the regenerated dispatch table says about them -/
+
+def qDocument : Str := [111, 102, 102, 105, 99, 101, 58, 100, 111, 99, 117, 109, 101, 110, 116]  -- office:document
+def qBody : Str := [111, 102, 102, 105, 99, 101, 58, 98, 111, 100, 121]  -- office:body
+def qText : Str := [111, 102, 102, 105, 99, 101, 58, 116, 101, 120, 116]  -- office:text
+def qSpreadsheet : Str := [111, 102, 102, 105, 99, 101, 58, 115, 112, 114, 101, 97, 100, 115, 104, 101, 101, 116]  -- office:spreadsheet
+def qPresentation : Str := [111, 102, 102, 105, 99, 101, 58, 112, 114, 101, 115, 101, 110, 116, 97, 116, 105, 111, 110]  -- office:presentation
+def qMeta : Str := [111, 102, 102, 105, 99, 101, 58, 109, 101, 116, 97]  -- office:meta
+def qStyles : Str := [111, 102, 102, 105, 99, 101, 58, 115, 116, 121, 108, 101, 115]  -- office:styles
+def qAutoStyles : Str := [111, 102, 102, 105, 99, 101, 58, 97, 117, 116, 111, 109, 97, 116, 105, 99, 45, 115, 116, 121, 108, 101, 115]  -- office:automatic-styles
+def qMasterStyles : Str := [111, 102, 102, 105, 99, 101, 58, 109, 97, 115, 116, 101, 114, 45, 115, 116, 121, 108, 101, 115]  -- office:master-styles
+def qSettings : Str := [111, 102, 102, 105, 99, 101, 58, 115, 101, 116, 116, 105, 110, 103, 115]  -- office:settings
+def qFontDecls : Str := [111, 102, 102, 105, 99, 101, 58, 102, 111, 110, 116, 45, 102, 97, 99, 101, 45, 100, 101, 99, 108, 115]  -- office:font-face-decls
+def qScripts : Str := [111, 102, 102, 105, 99, 101, 58, 115, 99, 114, 105, 112, 116, 115]  -- office:scripts
+def qTitle : Str := [100, 99, 58, 116, 105, 116, 108, 101]  -- dc:title
+def qCreator : Str := [100, 99, 58, 99, 114, 101, 97, 116, 111, 114]  -- dc:creator
+def qLanguage : Str := [100, 99, 58, 108, 97, 110, 103, 117, 97, 103, 101]  -- dc:language
+def qGenerator : Str := [109, 101, 116, 97, 58, 103, 101, 110, 101, 114, 97, 116, 111, 114]  -- meta:generator
+def qUserDefined : Str := [109, 101, 116, 97, 58, 117, 115, 101, 114, 45, 100, 101, 102, 105, 110, 101, 100]  -- meta:user-defined
+def qStyle : Str := [115, 116, 121, 108, 101, 58, 115, 116, 121, 108, 101]  -- style:style
+def qTextProps : Str := [115, 116, 121, 108, 101, 58, 116, 101, 120, 116, 45, 112, 114, 111, 112, 101, 114, 116, 105, 101, 115]  -- style:text-properties
+def qListStyle : Str := [116, 101, 120, 116, 58, 108, 105, 115, 116, 45, 115, 116, 121, 108, 101]  -- text:list-style
+def qLevelBullet : Str := [116, 101, 120, 116, 58, 108, 105, 115, 116, 45, 108, 101, 118, 101, 108, 45, 115, 116, 121, 108, 101, 45, 98, 117, 108, 108, 101, 116]  -- text:list-level-style-bullet
+def qLevelNumber : Str := [116, 101, 120, 116, 58, 108, 105, 115, 116, 45, 108, 101, 118, 101, 108, 45, 115, 116, 121, 108, 101, 45, 110, 117, 109, 98, 101, 114]  -- text:list-level-style-number
+def qP : Str := [116, 101, 120, 116, 58, 112]  -- text:p
+def qH : Str := [116, 101, 120, 116, 58, 104]  -- text:h
+def qSpan : Str := [116, 101, 120, 116, 58, 115, 112, 97, 110]  -- text:span
+def qA : Str := [116, 101, 120, 116, 58, 97]  -- text:a
+def qList : Str := [116, 101, 120, 116, 58, 108, 105, 115, 116]  -- text:list
+def qListItem : Str := [116, 101, 120, 116, 58, 108, 105, 115, 116, 45, 105, 116, 101, 109]  -- text:list-item
+def qTable : Str := [116, 97, 98, 108, 101, 58, 116, 97, 98, 108, 101]  -- table:table
+def qRow : Str := [116, 97, 98, 108, 101, 58, 116, 97, 98, 108, 101, 45, 114, 111, 119]  -- table:table-row
+def qCell : Str := [116, 97, 98, 108, 101, 58, 116, 97, 98, 108, 101, 45, 99, 101, 108, 108]  -- table:table-cell
+def qColumn : Str := [116, 97, 98, 108, 101, 58, 116, 97, 98, 108, 101, 45, 99, 111, 108, 117, 109, 110]  -- table:table-column
+def qCovered : Str := [116, 97, 98, 108, 101, 58, 99, 111, 118, 101, 114, 101, 100, 45, 116, 97, 98, 108, 101, 45, 99, 101, 108, 108]  -- table:covered-table-cell
+def qFrame : Str := [100, 114, 97, 119, 58, 102, 114, 97, 109, 101]  -- draw:frame
+def qTextBox : Str := [100, 114, 97, 119, 58, 116, 101, 120, 116, 45, 98, 111, 120]  -- draw:text-box
+def qImage : Str := [100, 114, 97, 119, 58, 105, 109, 97, 103, 101]  -- draw:image
+def qPage : Str := [100, 114, 97, 119, 58, 112, 97, 103, 101]  -- draw:page
+def qNote : Str := [116, 101, 120, 116, 58, 110, 111, 116, 101]  -- text:note
+def qCitation : Str := [116, 101, 120, 116, 58, 110, 111, 116, 101, 45, 99, 105, 116, 97, 116, 105, 111, 110]  -- text:note-citation
+def qNoteBody : Str := [116, 101, 120, 116, 58, 110, 111, 116, 101, 45, 98, 111, 100, 121]  -- text:note-body
+def qS : Str := [116, 101, 120, 116, 58, 115]  -- text:s
+def qTab : Str := [116, 101, 120, 116, 58, 116, 97, 98]  -- text:tab
+def qLineBreak : Str := [116, 101, 120, 116, 58, 108, 105, 110, 101, 45, 98, 114, 101, 97, 107]  -- text:line-break
+def qBookmark : Str := [116, 101, 120, 116, 58, 98, 111, 111, 107, 109, 97, 114, 107]  -- text:bookmark
+def qBookmarkStart : Str := [116, 101, 120, 116, 58, 98, 111, 111, 107, 109, 97, 114, 107, 45, 115, 116, 97, 114, 116]  -- text:bookmark-start
+def qBookmarkEnd : Str := [116, 101, 120, 116, 58, 98, 111, 111, 107, 109, 97, 114, 107, 45, 101, 110, 100]  -- text:bookmark-end
+def qBookmarkRef : Str := [116, 101, 120, 116, 58, 98, 111, 111, 107, 109, 97, 114, 107, 45, 114, 101, 102]  -- text:bookmark-ref
+def qSection : Str := [116, 101, 120, 116, 58, 115, 101, 99, 116, 105, 111, 110]  -- text:section
+
+/-- the supported vocabulary with its (start handler, end handler) -/
+def vocabulary : List (Str × Option HName × Option HName) := [
+  (qDocument, some .s_office_document_content, some .e_office_document_content),
+  (qBody, none, none),
+  (qText, some .s_office_text, some .e_office_text),
+  (qSpreadsheet, some .s_office_spreadsheet, some .e_office_spreadsheet),
+  (qPresentation, some .s_office_presentation, some .e_office_presentation),
+  (qMeta, some .s_ignorecont, none),
+  (qSettings, some .s_ignorexml, none),
+  (qScripts, some .s_ignorexml, none),
+  (qFontDecls, none, none),
+  (qStyles, some .s_office_styles, none),
+  (qAutoStyles, some .s_office_automatic_styles, none),
+  (qMasterStyles, some .s_office_master_styles, none),
+  (qTitle, some .s_processcont, some .e_dc_title),
+  (qCreator, some .s_processcont, some .e_dc_creator),
+  (qLanguage, some .s_processcont, some .e_dc_contentlanguage),
+  (qGenerator, some .s_processcont, some .e_dc_metatag),
+  (qUserDefined, none, none),
+  (qStyle, some .s_style_style, some .e_style_style),
+  (qTextProps, some .s_style_handle_properties, none),
+  (qListStyle, none, none),
+  (qLevelBullet, some .s_text_list_level_style_bullet, some .e_text_list_level_style_bullet),
+  (qLevelNumber, some .s_text_list_level_style_number, some .e_text_list_level_style_number),
+  (qP, some .s_text_p, some .e_text_p),
+  (qH, some .s_text_h, some .e_text_h),
+  (qSpan, some .s_text_span, some .e_text_span),
+  (qA, some .s_text_a, some .e_text_a),
+  (qList, some .s_text_list, some .e_text_list),
+  (qListItem, some .s_text_list_item, some .e_text_list_item),
+  (qTable, some .s_table_table, some .e_table_table),
+  (qRow, some .s_table_table_row, some .e_table_table_row),
+  (qCell, some .s_table_table_cell, some .e_table_table_cell),
+  (qColumn, some .s_table_table_column, none),
+  (qCovered, some .s_ignorexml, none),
+  (qFrame, some .s_draw_frame, some .e_draw_frame),
+  (qTextBox, some .s_draw_textbox, some .e_draw_textbox),
+  (qImage, some .s_draw_image, none),
+  (qPage, some .s_draw_page, some .e_draw_page),
+  (qNote, some .s_text_note, none),
+  (qCitation, none, some .e_text_note_citation),
+  (qNoteBody, some .s_text_note_body, some .e_text_note_body),
+  (qS, some .s_text_s, none),
+  (qTab, some .s_text_tab, none),
+  (qLineBreak, some .s_text_line_break, none),
+  (qBookmark, some .s_text_bookmark, none),
+  (qBookmarkStart, some .s_text_bookmark, none),
+  (qBookmarkEnd, none, none),
+  (qBookmarkRef, some .s_text_bookmark_ref, some .e_text_a),
+  (qSection, none, none)
+]
+
+/-- **tie to the source**: the handler pairs of the supported vocabulary, read off the dispatch dict of a live
+    `ODF2XHTML()` (regenerated on every run).  A renamed, removed or re-wired handler breaks this theorem. -/
+theorem vocabulary_dispatch : ∀ e ∈ vocabulary, dispatch e.1 = e.2 := by
+  decide +kernel
+
+/-- **tie to the source** (AST of odf/odf2xhtml.py, regenerated): `writedata` writes `escape(d)`, `opentag` and `emptytag`
+    quote every attribute value with `quoteattr`, and no handler or helper hands a document-derived string to the output
+    any other way (write kind 9 = a string that is neither a literal, nor `escape(…)`, nor a tag helper, nor a template
+    whose arguments are literals / `quoteattr(…)`, nor collected output, nor the note number). -/
+theorem handlers_escape :
+    coreEscapes = (true, true, true) ∧ handlerWrites.all (fun hw => !hw.2.contains 9) = true ∧
+    nsdictInjective = true := by
+  decide +kernel
+
 /-! ## The supported documents -/
 
 /-- the three kinds of document body (text, spreadsheet, presentation): their handlers are `html_body` at the start and
@@ -32,6 +150,81 @@ inductive Supported : Node → Prop
       HeadL [(qd, ad)] pre → dispatch qb = (none, none) →
       dispatch qt = (some hs, some he) → BodyH hs he → FlowL false blocks →
       Supported (.elem qd ad (pre ++ [.elem qb ab [.elem qt at_ blocks]]))
+
+
+/-! ## The vocabulary is supported: every element kind of the property's quantifier is running text (`Flow`) -/
+
+theorem disp {q : Str} {hs he : Option HName} (h : (q, hs, he) ∈ vocabulary) : dispatch q = (hs, he) :=
+  vocabulary_dispatch (q, hs, he) h
+
+theorem flow_p (b : Bool) (a : Attrs) (kids : List Node) (h : FlowL b kids) : Flow b (.elem qP a kids) :=
+  .bracket b qP a kids _ _ (disp (by decide)) (.p a) h
+theorem flow_h (b : Bool) (a : Attrs) (kids : List Node) (lvl : Nat) (hl : headingLevel a = .ok lvl) (h : FlowL b kids) :
+    Flow b (.elem qH a kids) := .bracket b qH a kids _ _ (disp (by decide)) (.heading a lvl hl) h
+theorem flow_span (b : Bool) (a : Attrs) (kids : List Node) (h : FlowL b kids) : Flow b (.elem qSpan a kids) :=
+  .bracket b qSpan a kids _ _ (disp (by decide)) (.span a) h
+theorem flow_a (b : Bool) (a : Attrs) (kids : List Node) (v : Str) (hv : a.lookup kHref = some v) (h : FlowL b kids) :
+    Flow b (.elem qA a kids) := .bracket b qA a kids _ _ (disp (by decide)) (.link a v hv) h
+theorem flow_bookmark_ref (b : Bool) (a : Attrs) (kids : List Node) (v : Str) (hv : a.lookup kRefName = some v) (h : FlowL b kids) :
+    Flow b (.elem qBookmarkRef a kids) := .bracket b qBookmarkRef a kids _ _ (disp (by decide)) (.bmref a v hv) h
+theorem flow_list (b : Bool) (a : Attrs) (kids : List Node) (h : FlowL b kids) : Flow b (.elem qList a kids) :=
+  .bracket b qList a kids _ _ (disp (by decide)) (.list a) h
+theorem flow_list_item (b : Bool) (a : Attrs) (kids : List Node) (h : FlowL b kids) : Flow b (.elem qListItem a kids) :=
+  .bracket b qListItem a kids _ _ (disp (by decide)) (.item a) h
+theorem flow_table (b : Bool) (a : Attrs) (kids : List Node) (h : FlowL b kids) : Flow b (.elem qTable a kids) :=
+  .bracket b qTable a kids _ _ (disp (by decide)) (.table a) h
+theorem flow_row (b : Bool) (a : Attrs) (kids : List Node) (h : FlowL b kids) : Flow b (.elem qRow a kids) :=
+  .bracket b qRow a kids _ _ (disp (by decide)) (.row a) h
+theorem flow_cell (b : Bool) (a : Attrs) (kids : List Node) (h : FlowL b kids) : Flow b (.elem qCell a kids) :=
+  .bracket b qCell a kids _ _ (disp (by decide)) (.cell a) h
+theorem flow_frame (b : Bool) (a : Attrs) (kids : List Node) (h : FlowL b kids) : Flow b (.elem qFrame a kids) :=
+  .bracket b qFrame a kids _ _ (disp (by decide)) (.frame a) h
+theorem flow_text_box (b : Bool) (a : Attrs) (kids : List Node) (h : FlowL b kids) : Flow b (.elem qTextBox a kids) :=
+  .bracket b qTextBox a kids _ _ (disp (by decide)) (.textbox a) h
+theorem flow_page (b : Bool) (a : Attrs) (kids : List Node) (h : FlowL b kids) : Flow b (.elem qPage a kids) :=
+  .bracket b qPage a kids _ _ (disp (by decide)) (.page a) h
+theorem flow_column (b : Bool) (a : Attrs) (n : Nat) (hn : pyInt ((a.lookup kColsRepeated).getD sOne) = some n) :
+    Flow b (.elem qColumn a []) := .leaf b qColumn a [] _ (disp (by decide)) (.column a n hn) (.nil b)
+theorem flow_covered (b : Bool) (a : Attrs) (kids : List Node) : Flow b (.elem qCovered a kids) :=
+  .ignored b qCovered a kids none (disp (by decide))
+theorem flow_image (b : Bool) (a : Attrs) (v : Str) (hv : a.lookup kHref = some v) : Flow b (.elem qImage a []) :=
+  .leaf b qImage a [] _ (disp (by decide)) (.image a v hv) (.nil b)
+theorem flow_s (b : Bool) (a : Attrs) (n : Nat) (hn : pyInt ((a.lookup kC).getD sOne) = some n) : Flow b (.elem qS a []) :=
+  .leaf b qS a [] _ (disp (by decide)) (.s a n hn) (.nil b)
+theorem flow_tab (b : Bool) (a : Attrs) : Flow b (.elem qTab a []) := .leaf b qTab a [] _ (disp (by decide)) (.tab a) (.nil b)
+theorem flow_line_break (b : Bool) (a : Attrs) : Flow b (.elem qLineBreak a []) :=
+  .leaf b qLineBreak a [] _ (disp (by decide)) (.br a) (.nil b)
+theorem flow_bookmark (b : Bool) (a : Attrs) (v : Str) (hv : a.lookup kName = some v) : Flow b (.elem qBookmark a []) :=
+  .leaf b qBookmark a [] _ (disp (by decide)) (.bookmark a v hv) (.nil b)
+theorem flow_bookmark_start (b : Bool) (a : Attrs) (v : Str) (hv : a.lookup kName = some v) : Flow b (.elem qBookmarkStart a []) :=
+  .leaf b qBookmarkStart a [] _ (disp (by decide)) (.bookmark a v hv) (.nil b)
+theorem flow_bookmark_end (b : Bool) (a : Attrs) : Flow b (.elem qBookmarkEnd a []) :=
+  .transparent b qBookmarkEnd a [] (disp (by decide)) (.nil b)
+theorem flow_section (b : Bool) (a : Attrs) (kids : List Node) (h : FlowL b kids) : Flow b (.elem qSection a kids) :=
+  .transparent b qSection a kids (disp (by decide)) h
+/-- a note (foot note or end note) outside other notes: citation with its label, body with running text -/
+theorem flow_note (a ac ab : Attrs) (label : List Str) (kids : List Node) (h : FlowL true kids) :
+    Flow false (.elem qNote a [.elem qCitation ac (label.map Node.text), .elem qNoteBody ab kids]) :=
+  .note qNote a qCitation ac label qNoteBody ab kids (disp (by decide)) (disp (by decide)) (disp (by decide)) h
+
+/-- a text document with the given running text and nothing before the body -/
+def textDoc (blocks : List Node) : Node := .elem qDocument [] [.elem qBody [] [.elem qText [] blocks]]
+
+theorem supported_textDoc (blocks : List Node) (h : FlowL false blocks) : Supported (textDoc blocks) :=
+  Supported.mk qDocument [] [] qBody [] qText [] blocks _ _ (disp (by decide)) (.nil _) (disp (by decide)) (disp (by decide))
+    (Or.inl ⟨rfl, rfl⟩) h
+
+/-- the hypotheses are satisfiable: <p>a<span>b</span><s/>, a foot note</p> <h outline-level="2">c</h> <list><item><p>d</p></item></list> -/
+example : Supported (textDoc
+    [.elem qP [] [.text [97], .elem qSpan [] [.text [98]], .elem qS [] [],
+                  .elem qNote [] [.elem qCitation [] [.text [49]], .elem qNoteBody [] [.elem qP [] [.text [102]]]]],
+     .elem qH [(kOutline, [50])] [.text [99]],
+     .elem qList [] [.elem qListItem [] [.elem qP [] [.text [100]]]]]) := by
+  apply supported_textDoc
+  refine .cons _ _ _ (flow_p _ _ _ (.cons _ _ _ (.text _ _) (.cons _ _ _ (flow_span _ _ _ (.cons _ _ _ (.text _ _) (.nil _)))
+    (.cons _ _ _ (flow_s _ _ 1 (by decide)) (.cons _ _ _ (flow_note [] [] [] [[49]] _ (.cons _ _ _ (flow_p _ _ _ (.cons _ _ _ (.text _ _) (.nil _))) (.nil _))) (.nil _))))))
+    (.cons _ _ _ (flow_h _ _ _ 2 (by rfl) (.cons _ _ _ (.text _ _) (.nil _)))
+    (.cons _ _ _ (flow_list _ _ _ (.cons _ _ _ (flow_list_item _ _ _ (.cons _ _ _ (flow_p _ _ _ (.cons _ _ _ (.text _ _) (.nil _))) (.nil _))) (.nil _))) (.nil _)))
 
 /-! ## total and balanced -/
 
@@ -114,5 +307,30 @@ theorem balanced_partial (cfg : Cfg) (doc : Node) (h : Supported doc) (toks : Li
     Dyck toks := by
   obtain ⟨toks', ht', hd⟩ := total_balanced_partial cfg doc h
   rw [ht] at ht'; cases ht'; exact hd
+
+/-! ## The known findings, as proved counter-examples on the model (replayed on the real code by harness/c18.py) -/
+
+/-- concatenation of the document-derived text tokens (what a reader of the page sees, without the converter's own strings) -/
+def textOf (ts : List Tok) : Str := ts.flatMap (fun t => match t with | .text s => s | _ => [])
+
+/-- **KF-C18-1**: a heading without text:outline-level makes the conversion raise KeyError (both settings of generate_css) -/
+theorem finding_heading_without_level (css : Bool) (cssText : Str) :
+    convert ⟨css, cssText⟩ (textDoc [.elem qH [] [.text [97]]]) = .error .keyError := by
+  cases css <;> cases cssText <;> rfl
+
+/-- **KF-C18-2**: `<p>a<frame><text-box><p>b</p></text-box></frame>c</p>`: the "a" never reaches the output -/
+theorem finding_pending_before_textbox :
+    ∃ toks, convert ⟨false, []⟩ (textDoc [.elem qP [] [.text [97],
+        .elem qFrame [] [.elem qTextBox [] [.elem qP [] [.text [98]]]], .text [99]]]) = .ok toks ∧
+      textOf toks = [98, 99] ∧ ¬ List.Sublist [97, 98, 99] (textOf toks) :=
+  ⟨_, rfl, rfl, by decide⟩
+
+/-- **KF-C18-3**: `<p>a<s/>b</p>`: the non-breaking space is written before the pending "a", the words are joined -/
+theorem finding_space_before_pending_text :
+    convert ⟨false, []⟩ (textDoc [.elem qP [] [.text [97], .elem qS [] [], .text [98]]]) =
+      .ok (docStart ++ [.ctag nHead true, .otag nBody [] true, .otag nP [] false, .raw .nbsp, .text [97, 98], .ctag nP true,
+                        .ctag nBody true, .ctag nHtml true]) := by
+  rfl
+
 
 end OdfModel.Props.C18
